@@ -1,8 +1,8 @@
 package sym
 
 import (
-	"strings"
 	"regexp"
+	"strings"
 )
 
 var reDenom = regexp.MustCompile(`^[a-zA-Z][a-zA-Z0-9/:._-]{2,127}$`)
